@@ -514,6 +514,15 @@ void run_exec(const Scenario& sc, const std::vector<Switch>& sched_in, vh::Rng* 
          std::to_string(db->template get_node_count<node_type::I16>()) + "," +
          std::to_string(db->template get_node_count<node_type::I48>()) + "," +
          std::to_string(db->template get_node_count<node_type::I256>());
+    // growth / shrink counters per class (I4, I16, I48, I256)
+    st += "," + std::to_string(db->template get_growing_inode_count<node_type::I4>()) + "," +
+          std::to_string(db->template get_growing_inode_count<node_type::I16>()) + "," +
+          std::to_string(db->template get_growing_inode_count<node_type::I48>()) + "," +
+          std::to_string(db->template get_growing_inode_count<node_type::I256>()) + "," +
+          std::to_string(db->template get_shrinking_inode_count<node_type::I4>()) + "," +
+          std::to_string(db->template get_shrinking_inode_count<node_type::I16>()) + "," +
+          std::to_string(db->template get_shrinking_inode_count<node_type::I48>()) + "," +
+          std::to_string(db->template get_shrinking_inode_count<node_type::I256>());
   }
   const std::string sizes = std::to_string(sizeof(unodb::detail::olc_inode_4<std::uint64_t, unodb::value_view>)) + "," +
                             std::to_string(sizeof(unodb::detail::olc_inode_16<std::uint64_t, unodb::value_view>)) + "," +
